@@ -566,7 +566,8 @@ func runC09React(t *kernel.Tape, opt core.Opts) *core.Outcome {
 		kinds[i] = t.Plan(2)
 	}
 	shareInput := t.PlanBool(50)
-	o.Sample = fmt.Sprintf("react-concurrent callers=%d kinds=%v tools=%s script=%v loop=%v maxStep=%d direct=%v strict=%v modifier=%v", nc, kinds, specsStr(p.specs), p.script, p.loop, p.maxStep, keys(p.direct), p.strict, p.modifier) + fmt.Sprintf(" sharedInput=%v", shareInput)
+	ownTools := t.PlanBool(40)
+	o.Sample = fmt.Sprintf("ownTools=%v ", ownTools) + fmt.Sprintf("react-concurrent callers=%d kinds=%v tools=%s script=%v loop=%v maxStep=%d direct=%v strict=%v modifier=%v", nc, kinds, specsStr(p.specs), p.script, p.loop, p.maxStep, keys(p.direct), p.strict, p.modifier) + fmt.Sprintf(" sharedInput=%v", shareInput)
 	o.PlanHash = core.HashString(o.Sample)
 	s := kernel.New(t, 300)
 	defer s.Close()
@@ -623,6 +624,11 @@ func runC09React(t *kernel.Tape, opt core.Opts) *core.Outcome {
 			// (designated to the model node: the framework looks designated handlers up again
 			// at every execution of the node, i.e. also long after the call started)
 			own := agent.WithComposeOptions(compose.WithCallbacks(tagHandler(env, tag)).DesignateNode("chat"))
+			if ownTools {
+				// the caller brings its own (equivalent) tools with the call
+				own = agent.WithComposeOptions(compose.WithCallbacks(tagHandler(env, tag)).DesignateNode("chat"),
+					compose.WithToolsNodeOption(compose.WithToolList(env.buildFor(p.specs, tag)...)))
+			}
 			if kinds[i] == 0 {
 				r.msg, r.err = ag.Generate(ctx, inputs[i], shared, own)
 				return
